@@ -67,6 +67,16 @@ impl<'a> Groups<'a> {
         }
     }
 
+    /// An enumerated group that only the calling shard evaluates (all cases).
+    pub fn enumerate_local<C>(&mut self, name: &str, cases: Vec<C>, check: impl Fn(&C) -> Verdict)
+    where
+        C: Debug + Serialize + DeserializeOwned + Clone,
+    {
+        if let Mode::Run = &self.mode {
+            self.ctx.run_enum_opt(name, cases, false, false, check);
+        }
+    }
+
     /// An explicitly enumerated group.
     pub fn enumerate<C>(
         &mut self,
